@@ -266,7 +266,7 @@ Definition sigel_ok_b (e : sigel) : bool :=
   match e with
   | SigRes t => wf_mtype_b t && negb (is_undef t)
   | SigArg v => wf_mtype_b (v_type v) && negb (is_undef (v_type v))
-                && (negb (all_blk_type_p (v_type v)) || in_rng 0 (2 ^ 32) (v_size v))
+                && (negb (all_blk_type_p (v_type v)) || in_rng 0 (2 ^ 63) (v_size v))
   end.
 Lemma sigel_ok_b_spec e : sigel_ok_b e = true -> sigel_ok e.
 Proof.
